@@ -85,6 +85,105 @@ func init() {
 			},
 			change: func(*c02Input, string, string) bool { return true },
 		})
+	c02Classes = append(c02Classes,
+		c02Class{
+			// Printer (Minify): like minify-dropped-comment-before-closing-paren
+			// with the comment anywhere inside the subshell / command
+			// substitution: "(\n# c\nfor i; do b; done\n)" gives "(for i\ndo
+			// b;done)" and then "(for i;do b;done)". Predicate: Minify; a
+			// comment lies inside a Subshell/CmdSubst; P1 and P2 have the same
+			// non-blank characters (";" aside).
+			name: "minify-dropped-comment-inside-parens-changes-layout",
+			cfg:  func(cfg synt.Config, _ bool) bool { return cfg.Minify },
+			shape: func(x *c02Input) bool {
+				found := false
+				syntax.Walk(x.f, func(n syntax.Node) bool {
+					switch n.(type) {
+					case *syntax.Subshell, *syntax.CmdSubst:
+						pos, end := n.Pos(), n.End()
+						syntax.Walk(n, func(m syntax.Node) bool {
+							if c, ok := m.(*syntax.Comment); ok && c.Pos().After(pos) && end.After(c.Pos()) {
+								found = true
+							}
+							return !found
+						})
+					}
+					return !found
+				})
+				return found
+			},
+			change: c02SameNonBlank,
+		},
+		c02Class{
+			// Printer: a here-document in the condition of if/while/until and a
+			// comment inside the first statement of the body: the first pass
+			// keeps the body on the line of then/do ("then a=(1) # c"), the
+			// second breaks it. Predicate: a here-document redirect inside the
+			// condition statements of an IfClause/WhileClause whose body holds a
+			// comment; only whitespace changes.
+			name: "heredoc-in-condition-body-comment-layout",
+			shape: func(x *c02Input) bool {
+				found := false
+				hasComment := func(stmts []*syntax.Stmt) bool {
+					r := false
+					for _, st := range stmts {
+						syntax.Walk(st, func(m syntax.Node) bool {
+							if _, ok := m.(*syntax.Comment); ok {
+								r = true
+							}
+							return !r
+						})
+					}
+					return r
+				}
+				hasHdoc := func(stmts []*syntax.Stmt) bool {
+					for _, st := range stmts {
+						if c02HasHeredoc(st) {
+							return true
+						}
+					}
+					return false
+				}
+				syntax.Walk(x.f, func(n syntax.Node) bool {
+					switch n := n.(type) {
+					case *syntax.IfClause:
+						if hasHdoc(n.Cond) && hasComment(n.Then) {
+							found = true
+						}
+					case *syntax.WhileClause:
+						if hasHdoc(n.Cond) && hasComment(n.Do) {
+							found = true
+						}
+					}
+					return !found
+				})
+				return found
+			},
+			change: func(_ *c02Input, p1, p2 string) bool { return slices.Equal(c02Tokens(p1), c02Tokens(p2)) },
+		},
+		c02Class{
+			// Printer (FunctionNextLine): a function declaration that follows a
+			// pending here-document on the same line ("a <<E || f() { a; }"):
+			// the opening brace and body are indented one level deeper on the
+			// first pass only. Predicate: FunctionNextLine; a BinaryCmd whose
+			// left side has a here-document and whose right side is a FuncDecl;
+			// only whitespace changes.
+			name: "funcnextline-after-pending-heredoc-indent",
+			cfg:  func(cfg synt.Config, _ bool) bool { return cfg.FuncNext },
+			shape: func(x *c02Input) bool {
+				found := false
+				syntax.Walk(x.f, func(n syntax.Node) bool {
+					if b, ok := n.(*syntax.BinaryCmd); ok && b.Y != nil && c02HasHeredoc(b.X) {
+						if _, ok := b.Y.Cmd.(*syntax.FuncDecl); ok {
+							found = true
+						}
+					}
+					return !found
+				})
+				return found
+			},
+			change: func(_ *c02Input, p1, p2 string) bool { return slices.Equal(c02Tokens(p1), c02Tokens(p2)) },
+		})
 	// in front of the older classes: the (fixed) class
 	// nested-closing-parens-space-from-source-lines has a wider shape
 	c02Classes = append([]c02Class{
@@ -125,14 +224,19 @@ func init() {
 				return found
 			},
 			change: func(_ *c02Input, p1, p2 string) bool {
-				// (a here-document body may also change sides of a closing brace,
-				// so the characters are compared as a multiset)
-				strip := strings.NewReplacer(" ", "", "\n", "", "\t", "", ";", "")
-				b1, b2 := []byte(strip.Replace(p1)), []byte(strip.Replace(p2))
-				slices.Sort(b1)
-				slices.Sort(b2)
-				return string(b1) == string(b2)
+				return c02SameNonBlank(nil, p1, p2)
 			},
 		}}, c02Classes...)
 }
 
+
+// c02SameNonBlank: the two texts have the same non-blank characters, ";"
+// aside (a here-document body may change sides of a closing brace, so the
+// characters are compared as a multiset).
+func c02SameNonBlank(_ *c02Input, p1, p2 string) bool {
+	strip := strings.NewReplacer(" ", "", "\n", "", "\t", "", ";", "")
+	b1, b2 := []byte(strip.Replace(p1)), []byte(strip.Replace(p2))
+	slices.Sort(b1)
+	slices.Sort(b2)
+	return string(b1) == string(b2)
+}
